@@ -1213,7 +1213,78 @@ fn c07_wall(ctx: &Ctx) -> Stats {
     })
 }
 
+/// Replay of a black-box case: the recorded commands on a fresh process of the release binary.
+/// C07: CPU time between the last go and its answer against the move time named in that command.
+/// C06: the value printed by the last (depth-limited) go against the reference minimax value.
+fn replay_blackbox(which: &str, c: &J, st: &mut Stats) {
+    let cmds: Vec<String> = c.get("commands").and_then(|a| a.as_arr()).map(|a| a.iter().filter_map(|x| x.as_str().map(|s| s.to_string())).collect()).unwrap_or_default();
+    let bin = std::path::PathBuf::from(std::env::var("FLOUNDER_BIN").unwrap_or_else(|_| format!("{}/target/engine/release/flounder", std::env::var("VERIF_DIR").unwrap_or_else(|_| "/verif".into()))));
+    if cmds.is_empty() {
+        st.inconclusive.push("replay: no commands in the case".into());
+        return;
+    }
+    let mut eng = match bb::Engine::spawn(&bin) {
+        Ok(e) => e,
+        Err(m) => {
+            st.inconclusive.push(format!("cannot start the engine binary: {}", m));
+            return;
+        }
+    };
+    st.case(hash64(&cmds), true);
+    let last = cmds.len() - 1;
+    let mut p: Option<Pos> = None;
+    for (i, cmd) in cmds.iter().enumerate() {
+        if cmd.starts_with("position") {
+            p = crate::props::position::reference_of_command(cmd).map(|x| x.0);
+            let _ = eng.send(cmd);
+            continue;
+        }
+        let cpu0 = eng.cpu_ms();
+        let out = eng.command(cmd, Duration::from_secs(if i == last { 30 } else { 120 }));
+        let used = eng.cpu_ms().saturating_sub(cpu0);
+        if i < last {
+            if out.is_err() {
+                st.inconclusive.push(format!("replay: '{}' was not answered", cmd));
+                return;
+            }
+            continue;
+        }
+        let toks: Vec<&str> = cmd.split_whitespace().collect();
+        let num = |name: &str| toks.iter().position(|t| *t == name).and_then(|k| toks.get(k + 1)).and_then(|v| v.parse::<u64>().ok());
+        if which == "C07" {
+            match num("movetime") {
+                Some(t) => {
+                    if used > t + 500 {
+                        st.violation("C07:replay:cpu-over-budget", format!("'{}' consumed {} ms of CPU ({})", cmd, used, if out.is_ok() { "answered" } else { "no answer within the watchdog" }), c.clone());
+                    }
+                }
+                None => st.inconclusive.push("replay: the last command names no move time".into()),
+            }
+        } else {
+            let (Some(d), Some(p), Ok(lines)) = (num("depth"), p.as_ref(), out.as_ref()) else {
+                st.inconclusive.push("replay: the last command is not an answered depth-limited go after a position command".into());
+                return;
+            };
+            let mut rs = RefSearch::new(50_000_000, 5_000_000);
+            match (info_depth_score(lines, d as u32), rs.value(p, d as u8)) {
+                (Some(got), Ok(want)) => {
+                    if class(got.clamp(i32::MIN as i64, i32::MAX as i64) as i32) != want {
+                        st.violation("C06:replay:blackbox-later-value", format!("'{}' prints score {} for depth {} but the minimax value is {}", cmd, got, d, want.show()), c.clone());
+                    }
+                }
+                (None, Ok(_)) => st.violation("C06:replay:blackbox-later-search-reports-nothing", format!("'{}' prints no value for depth {}: {:?}", cmd, d, lines), c.clone()),
+                _ => st.inconclusive.push("replay: reference over budget".into()),
+            }
+        }
+    }
+    eng.quit();
+}
+
 fn replay_other(which: &str, c: &J, st: &mut Stats) {
+    if c.str_of("kind") == "blackbox" {
+        replay_blackbox(which, c, st);
+        return;
+    }
     let p = match Pos::from_fen(&c.str_of("fen")) {
         Ok(p) => p,
         Err(_) => {
@@ -1323,7 +1394,20 @@ fn c07_blackbox(ctx: &Ctx) -> Stats {
                     }
                 }
             }
-            let script = vec![format!("position fen {}", p.to_fen()), format!("go movetime {}", t)];
+            // a third of the commands carry further standard go tokens next to the move time, as GUIs send
+            // them (a node limit far beyond reach, moves to go): the time budget binds all the same
+            let go = match rng.below(6) {
+                0 => {
+                    st.bump("blackbox_go_movetime_with_other_go_tokens");
+                    format!("go nodes 4000000000 movetime {}", t)
+                }
+                1 => {
+                    st.bump("blackbox_go_movetime_with_other_go_tokens");
+                    format!("go movetime {} movestogo 25 nodes 3000000000", t)
+                }
+                _ => format!("go movetime {}", t),
+            };
+            let script = vec![format!("position fen {}", p.to_fen()), go];
             let case = J::obj(vec![("kind", J::s("blackbox")), ("commands", J::arr_s(script.clone()))]);
             if eng.send(&script[0]).is_err() {
                 st.inconclusive.push("engine process died".into());
